@@ -37,6 +37,7 @@ type Obligation struct {
 	Expect  string  // "unsat" (default) or "sat" (cover / canary obligations)
 	Note    string
 	Bounded bool // belongs to a bounded stand-in, never counted as proved
+	Group   string // obligations with the same non-empty group hold together if ANY member is discharged (reachability covers)
 
 	SpecDefs map[string]*SpecDef
 	Fuel     int
@@ -804,6 +805,9 @@ func DischargeAll(obs []*Obligation, timeoutS int, thorough bool, par int) {
 				if o.Kind == "known-finding-canary" && t > 3 {
 					t = 3 // a canary is expected not to discharge; do not wait long for it
 				}
+				if o.Group != "" && t > 5 {
+					t = 5 // reachability covers: one satisfiable member is enough, undecided members are not waited for
+				}
 				o.Discharge(t, thorough)
 			}
 		}()
@@ -813,6 +817,17 @@ func DischargeAll(obs []*Obligation, timeoutS int, thorough bool, par int) {
 	}
 	close(ch)
 	wg.Wait()
+	okGroup := map[string]bool{}
+	for _, o := range obs {
+		if o.Group != "" && o.Status == "discharged" {
+			okGroup[o.Group] = true
+		}
+	}
+	for _, o := range obs {
+		if o.Group != "" && o.Status != "discharged" && okGroup[o.Group] {
+			o.Status, o.Output = "discharged", "group "+o.Group+": another member is satisfiable ("+o.Status+" here)"
+		}
+	}
 }
 
 func sortObligations(obs []*Obligation) {
